@@ -26,6 +26,13 @@ def reset():
     HOLES.clear()
 
 
+SYM_INTS = tuple(c for c in (getattr(bl, "SymbolicInt", None), getattr(bl, "SymbolicBoundedInt", None)) if c is not None)
+
+
+def _is_sym_int(obj):
+    return isinstance(obj, SYM_INTS)
+
+
 def _hole(obj):
     HOLES.append(obj)
     return f"{L}{len(HOLES) - 1}{R}"
@@ -33,7 +40,7 @@ def _hole(obj):
 
 def vf_format(obj, format_spec=""):
     with NoTracing():
-        if type(obj) is bl.SymbolicInt and type(format_spec) is str and format_spec == "":
+        if _is_sym_int(obj) and type(format_spec) is str and format_spec == "":
             return _hole(obj)
         if isinstance(format_spec, bl.AnySymbolicStr):
             format_spec = bl.realize(format_spec)
@@ -50,7 +57,7 @@ def vf_str(*a):
     with NoTracing():
         if len(a) == 1:
             (self,) = a
-            if type(self) is bl.SymbolicInt:
+            if _is_sym_int(self):
                 return _hole(self)
             if isinstance(self, bl.AnySymbolicStr):
                 return self
